@@ -776,9 +776,16 @@ func (n *MapLiteralNode) String() string {
 }
 
 func (n *MapLiteralNode) Children() []Node {
+	// in key order, so that the passes that walk the tree (and the error they
+	// report first) do not depend on Go's random map iteration order.
+	var keys = make([]string, 0, len(n.Items))
+	for k := range n.Items {
+		keys = append(keys, k)
+	}
+	sort.Strings(keys)
 	var nodes []Node
-	for _, v := range n.Items {
-		nodes = append(nodes, v)
+	for _, k := range keys {
+		nodes = append(nodes, n.Items[k])
 	}
 	return nodes
 }
